@@ -502,6 +502,11 @@ def corpus():
     out.append(({'root': 'T', 'files': cols, 'relocate': 0, 'muts': [['flip', 'path', 3, 1]]}, [{'opts': d, 'single': None, 'efile': True}]))
     out.append(({'root': 'T', 'files': cols, 'relocate': 1, 'muts': [['delete', 'path'], ['flip', 'md5', 0, 0]]},
                 [{'opts': d, 'single': None, 'efile': True}, {'opts': d, 'single': 'size', 'efile': True}]))
+    # recorded files whose BASE NAME is that of the database given with -d (a copy of an older database kept inside the tree, a
+    # sub-project with its own hashes.csv): audited like any other file
+    dbn = [f('projB/raw/hashes.csv', ['r', 101, 60], 1_440_000_000), f('hashes.csv', ['r', 102, 61], 1_440_000_100), f('projA/data.bin', ['r', 103, 62], 1_440_000_200)]
+    out.append(({'root': 'T', 'files': dbn, 'relocate': 0, 'muts': [['flip', 'projB/raw/hashes.csv', 5, 2], ['delete', 'hashes.csv']]},
+                [{'opts': d, 'single': None, 'efile': True}, {'opts': [True, False, False], 'single': None, 'efile': True}]))
     # exactly 256 (and 512 = 256 deleted + 256 flipped would be too slow: 256 deleted) recorded files in error: the exit status seen by
     # the caller of the command must still be non-zero (an error COUNT used as exit status wraps to 0 modulo 256)
     many = [f('m/%03d.t' % i, ['r', 1000 + i, 3], 1_300_000_000 + i) for i in range(256)] + [f('keep.t', ['r', 7, 3], 1_200_000_000)]
